@@ -54,7 +54,8 @@ def main():
             "demo_passes_without_patch": True,
             "demo_fails_with_patch": True,
             "repository_suite_passes_with_patch": True,
-            "suite_cmd": "cd dnsrocks && go test -vet=off -count=1 ./... ; go test -ldflags=-checklinkname=0 -vet=off -count=1 ./db/... ./dnsserver/... ./fbserver/... ./whoami/... ./logger/... ./cmd/dnsrocks/... ; cd go-cdb-mods && go test ./...",
+            "suite_cmd": "cd dnsrocks && go test -ldflags=-checklinkname=0 -vet=off -count=1 <every package that imports a touched package, directly, transitively or from its tests> (dnsserver's TestFBDNSDBBadPathDontWrite run on its own: it leaves a periodic reloader that panics the test binary 10 s later on a loaded machine, also on the unchanged tree); go-cdb-mods' own suite when it is touched. The seeding agent additionally ran the complete baseline suite (see tests_run).",
+            "suite_packages": v.get("suite_packages"),
         }
         checks = {}
         for c, r in v.get("checks", {}).items():
